@@ -4,6 +4,7 @@ package main
 
 import (
 	"fmt"
+	"os"
 	"math/big"
 	"go/constant"
 	"go/types"
@@ -179,6 +180,9 @@ func (vc *FuncVC) lookupIdent(env *Env, name string) *CVal {
 		// names bound by the source (DebugRef) that dominate the loop header
 		if env.loop != nil {
 			if v := vc.debugValue(name, env.loop.header); v != nil {
+				if os.Getenv("GOVC_DEBUG") != "" {
+					fmt.Fprintf(os.Stderr, "lookup %s via debugValue at block %d -> %s\n", name, env.loop.header.Index, v.T.S)
+				}
 				return v
 			}
 		}
@@ -316,9 +320,30 @@ func (vc *FuncVC) debugValue(name string, b *ssa.BasicBlock) *CVal {
 			}
 		}
 	}
+	// single-valued variable: every use (not the declaring occurrence, whose DebugRef can
+	// predate the initialising store) sees the same SSA value, and it is defined above b
+	var single ssa.Value
+	uniform := true
+	for _, d := range vc.debugRefs[name] {
+		if d.IsAddr || isDeclaringRef(d) {
+			continue
+		}
+		if single == nil {
+			single = d.X
+		} else if single != d.X {
+			uniform = false
+		}
+	}
+	if single != nil && uniform {
+		if in, ok := single.(ssa.Instruction); !ok || in.Block() == b || in.Block().Dominates(b) {
+			if _, done := vc.vals[single]; done || !ok {
+				return vc.fromVal(vc.val(single), single.Type())
+			}
+		}
+	}
 	for _, d := range vc.debugRefs[name] {
 		db := d.Block()
-		if db == b || !db.Dominates(b) {
+		if db == b || !db.Dominates(b) || isDeclaringRef(d) {
 			continue
 		}
 		if best == nil || best.Block().Dominates(db) {
@@ -363,7 +388,19 @@ func (vc *FuncVC) debugValue(name string, b *ssa.BasicBlock) *CVal {
 		}
 		return &CVal{T: vc.load(vc.cur, best.X), Typ: elem}
 	}
+	if os.Getenv("GOVC_DEBUG") != "" {
+		for _, d := range vc.debugRefs[name] {
+			fmt.Fprintf(os.Stderr, "  ref %s in block %d idx %d X=%s addr=%v\n", name, d.Block().Index, instrIndex(d), d.X.Name(), d.IsAddr)
+		}
+		fmt.Fprintf(os.Stderr, "debugValue %s at block %d: X=%s (%T)\n", name, b.Index, best.X.Name(), best.X)
+	}
 	return vc.fromVal(vc.val(best.X), best.X.Type())
+}
+
+// isDeclaringRef: the DebugRef of the identifier that declares the variable (x := …, var x …).
+func isDeclaringRef(d *ssa.DebugRef) bool {
+	obj := d.Object()
+	return obj != nil && d.Expr != nil && d.Expr.Pos() == obj.Pos()
 }
 
 func instrIndex(in ssa.Instruction) int {
@@ -961,6 +998,9 @@ func (vc *FuncVC) evalCall(env *Env, x *ECall) *CVal {
 		return &CVal{T: vc.hasAffix(s0.T, p0.T, p0.Lit, name == "strings.HasSuffix")}
 	case "fresh":
 		v := arg(0)
+		if os.Getenv("GOVC_DEBUG") != "" {
+			fmt.Fprintf(os.Stderr, "fresh(%v) -> %s : %s\n", x.Args[0], v.T.S, v.T.Sort)
+		}
 		ref := v.T
 		if v.T.Sort == SSlice {
 			ref = T(app("s_arr", v.T), SInt)
